@@ -30,6 +30,34 @@ pub struct RustDocument {
     forward_nodes: Vec<Rc<RustNode>>,
 }
 
+/// What a QName reference is meant to denote: a reference is never bound to a component of another
+/// kind that happens to carry the same name.
+#[derive(Clone, Copy, PartialEq, Eq, Debug)]
+pub enum ComponentKind {
+    /// named complex type, simple type or model group (`type=`, `base=`, `group ref=`)
+    Type,
+    /// global element (`element ref=`, message part `element=`)
+    Element,
+}
+
+impl ComponentKind {
+    fn matches(self, rust_type: &crate::model::structures::RustType) -> bool {
+        use crate::model::structures::RustType;
+        match rust_type {
+            RustType::Complex(_) | RustType::Simple(_) => self == ComponentKind::Type,
+            RustType::Element(_) => self == ComponentKind::Element,
+            RustType::Ignore => false,
+        }
+    }
+
+    fn matches_tag(self, tag_name: &str) -> bool {
+        match self {
+            ComponentKind::Type => matches!(tag_name, "complexType" | "simpleType" | "group"),
+            ComponentKind::Element => tag_name == "element",
+        }
+    }
+}
+
 /// A forward reference is resolved by converting the referenced XML node on the spot, which may
 /// in turn meet further forward references. Self- and mutually-referential components would
 /// recurse forever, so the nesting is bounded.
@@ -173,9 +201,12 @@ impl RustDocument {
         start_node: &Node<'n, 'n>,
         xml_name: &str,
         namespace: Option<&Namespace>,
+        kind: ComponentKind,
     ) -> Option<Rc<RustNode>> {
         let rust_node = self.nodes.iter().chain(self.forward_nodes.iter()).find(|node| {
-            node.rust_type.xml_name().is_some_and(|n| n == xml_name) && node.in_namespace.as_deref() == namespace
+            node.rust_type.xml_name().is_some_and(|n| n == xml_name)
+                && node.in_namespace.as_deref() == namespace
+                && kind.matches(&node.rust_type)
         });
 
         if let Some(rust_node) = rust_node {
@@ -187,7 +218,7 @@ impl RustDocument {
         }
 
         self.forward_lookup_depth += 1;
-        let alt_node = try_to_find_node_by_xml_name_in_xml_doc(start_node, xml_name, namespace, self);
+        let alt_node = try_to_find_node_by_xml_name_in_xml_doc(start_node, xml_name, namespace, kind, self);
         self.forward_lookup_depth -= 1;
 
         let alt_node: Rc<RustNode> = alt_node.ok()?.into();
@@ -224,6 +255,7 @@ fn try_to_find_node_by_xml_name_in_xml_doc<'n>(
     start_node: &'n Node<'n, 'n>,
     xml_name: &str,
     _namespace: Option<&Namespace>,
+    kind: ComponentKind,
     doc: &mut RustDocument,
 ) -> WriterResult<RustNode> {
     // get to the root of the document from the start node
@@ -234,7 +266,11 @@ fn try_to_find_node_by_xml_name_in_xml_doc<'n>(
 
     // iterate over all subsequent nodes in the XML tree to find the node with the given name
     for node in start_node.descendants() {
-        if node.is_element() {
+        // only global components of the wanted kind can be referenced
+        let is_global = node
+            .parent()
+            .is_some_and(|p| p.is_element() && p.tag_name().name() == "schema");
+        if node.is_element() && is_global && kind.matches_tag(node.tag_name().name()) {
             // do a quick check on the name of the node, so we can skip the more expensive try_from_node
             if let Some(node_name) = node.attribute("name") {
                 let (node_name, _node_namespace) = resolve_type(node_name, doc);
